@@ -13,7 +13,7 @@ from collections import deque
 from dataclasses import dataclass, field
 from typing import Callable, Iterable
 
-from .loader import norm
+from .loader import tnorm as norm
 
 Fact = tuple[str, bool]  # (normalised expression text, polarity)
 
